@@ -1302,9 +1302,8 @@ fn stream_widen(rep: &mut Report, rng: &mut Rng, big: bool) {
     for (k, (f, t, v)) in cases.iter().enumerate() {
         globals.push_str(&format!("N{k} : {} : comptime {{ {v} }};\nG{k} : {} : comptime {{ N{k} }};\nH{k} : {} : N{k};\n", tn(*f), tn(*t), tn(*t)));
         body.push_str(&format!(
-            "    {{ l : {} = comptime {{ N{k} }}; r : {} = N{k}; core.println(\"#{k} \", G{k}, \" \", H{k}, \" \", l, \" \", r); }}\n",
-            tn(*t),
-            tn(*t)
+            "    {{ l : {t} = comptime {{ N{k} }}; r : {t} = N{k}; core.println(\"#{k} \", G{k}, \" \", H{k}, \" \", l, \" \", r); }}\n",
+            t = tn(*t)
         ));
     }
     let floats: Vec<&str> = vec!["1.5", "-2.25", "0.1", "1000000.5", "0.0"];
@@ -1315,6 +1314,9 @@ fn stream_widen(rep: &mut Report, rng: &mut Rng, big: bool) {
         ));
     }
     let src = format!("core :: #mod(\"core\");\n{globals}main :: () {{\n{body}}}\n");
+    if std::env::var("CVH_DUMP_WIDEN").is_ok() {
+        let _ = std::fs::write("/tmp/widen_src.capy", &src);
+    }
     let out = &e2e::run_all(&[Program::single(&src)], e2e::Limits::default())[0];
     let reqs: Vec<String> = cases
         .iter()
@@ -1364,6 +1366,48 @@ fn stream_widen(rep: &mut Report, rng: &mut Rng, big: bool) {
                 json!(want),
                 "a constant value stored into a wider global / local (comptime block, constant alias, comptime local, run-time local) does not read back as the value",
             );
+        }
+    }
+    // the run-time counterpart written as a block / an `if` value whose tail is a narrower CALL result
+    // (`x : i16 = { small_u8() };` panicked the type checker at the pin): one small program per pair
+    {
+        let mut pairs: Vec<((bool, u32), (bool, u32))> = vec![];
+        for (f, t, _) in &cases {
+            if !pairs.contains(&(*f, *t)) {
+                pairs.push((*f, *t));
+            }
+        }
+        let val = |f: (bool, u32)| -> i128 { if f.0 { -5 } else { (1i128 << f.1) - 56 } };
+        let progs: Vec<Program> = pairs
+            .iter()
+            .map(|(f, t)| {
+                Program::single(&format!(
+                    "core :: #mod(\"core\");\nnf :: () -> {f} {{ {v} }}\nmain :: () {{\n    rb : {t} = {{ nf() }};\n    core.println(rb);\n    ri : {t} = if true {{ nf() }} else {{ nf() }};\n    core.println(ri);\n    rl : {t} = `b: {{ break `b nf(); }};\n    core.println(rl);\n}}\n",
+                    f = tn(*f),
+                    t = tn(*t),
+                    v = val(*f)
+                ))
+            })
+            .collect();
+        let outs = e2e::run_all(&progs, e2e::Limits::default());
+        for (((f, t), o), p) in pairs.iter().zip(outs.iter()).zip(progs.iter()) {
+            rep.case(Some(format!("widen-runtime-block|{}|{}", tn(*f), tn(*t))));
+            rep.hit("widen:runtime-block-if-break");
+            let want = vec![val(*f).to_string(); 3];
+            let got: Vec<String> = if o.built && o.run_status == Some(0) {
+                o.stdout().lines().map(|l| l.trim().to_string()).collect()
+            } else {
+                vec![format!("{} {}", o.run_summary(), errors_of(o))]
+            };
+            if got != want {
+                rep.oracle_fail(
+                    "comptime-differs-from-runtime:widened-global:runtime-block",
+                    json!({"stream": "widen", "value_type": tn(*f), "global_type": tn(*t), "source": p.files[0].1}),
+                    json!(got),
+                    json!(want),
+                    "a narrower call result as the tail of a block / `if` / labelled block annotated with a wider type does not yield the value (or crashes the compiler)",
+                );
+            }
         }
     }
     for (j, fl) in floats.iter().enumerate() {
